@@ -99,6 +99,12 @@ class PendingName(PendingExprGeneric[Name]):
 
 
 class PendingComp(PendingExprGeneric[_CompNode]):
+    """
+    The first iterable of a comprehension runs in the outer scope,
+    everything else runs in the scope of the comprehension,
+    where the targets are tracked.
+    """
+
     target_names: set[str]
     node: _CompNode
 
@@ -110,13 +116,40 @@ class PendingComp(PendingExprGeneric[_CompNode]):
         for comp in self.node.generators:
             self.get_comp_target_names(comp.target)
 
+    def _iter_fields(self):
+        generators = self.node.generators
+        first_iter = yield generators[0].iter
+
+        # enter the scope of the comprehension
         self.nsp.comp_stack.append(self)
 
-    def get_result(self) -> expr:
+        converted_generators = []
+        for index, comp in enumerate(generators):
+            target = yield comp.target
+            if index == 0:
+                _iter = first_iter
+            else:
+                _iter = yield comp.iter
+            ifs = []
+            for test in comp.ifs:
+                ifs.append((yield test))
+            converted_generators.append(
+                comprehension(
+                    target=target,
+                    iter=_iter,
+                    ifs=ifs,
+                    is_async=comp.is_async,
+                )
+            )
+
+        for field_name in self.node._fields:
+            if field_name == "generators":
+                self.converted_dict[field_name] = converted_generators
+            else:
+                self.converted_dict[field_name] = yield getattr(self.node, field_name)
+
         assert self.nsp.comp_stack[-1] is self
         self.nsp.comp_stack.pop()
-
-        return super().get_result()
 
     def get_comp_target_names(self, target):
         """
@@ -127,8 +160,9 @@ class PendingComp(PendingExprGeneric[_CompNode]):
         elif isinstance(target, (Tuple, List)):
             for sub_target in target.elts:
                 self.get_comp_target_names(sub_target)
-        else:  # pragma: no cover
-            raise RuntimeError("Unknown comprehension target")
+        elif isinstance(target, Starred):
+            self.get_comp_target_names(target.value)
+        # attribute/subscript targets don't bind names
 
 
 class PendingLambda(PendingExprGeneric[Lambda]):
